@@ -75,8 +75,8 @@ CLAIMED = {
  "C09": C("Proved on the server model: C09_insecure_unreachable (when AUTH is not allowed neither the backend nor a mechanism is ever reached, nothing but the refusal is written), C09_b64_roundtrip (the decoder is the exact inverse of the encoder on all octet strings), C09_empty_initial_response; whole connections (consequences of order_accepts_every_connection, stated on the trace): C09_never_on_insecure_connection (no Auth call and no SASL step on a connection that never becomes secure, whatever is sent), C09_at_most_once (after a successful exchange no Auth call or SASL step until the session ended); client model: C09_client_exchange_rules. AUTH reachability/at-most-once monitor on conversations over {plaintext, STARTTLS, implicit TLS} x AllowInsecureAuth x backend incl. mechanisms that fail with done=true; client half: Client.Auth against scripted peers, judged (challenges and responses cross unaltered, '*' only while the server waits) and compared with the Lean client model.",
           'DESIGN.md 0.3 + 7 C09', 'Lean 4 proof (server AUTH gate, base64) + trace monitors + differential correspondence (conv, cconv probes)',
           "the client half is decided by the judge and the cconv correspondence, not by a theorem; one known finding (client sends '*' after a final negative reply)"),
- "C10": C('Proved on the server model: C10_refused_unless_available, startTLS_success / C10_server_fresh (after a successful upgrade: no session, greeting name, authentication or envelope; the old session logged out; a fresh wire), C10_no_plaintext_in_tls (octets buffered behind STARTTLS are never read inside TLS); whole connections: C10_upgrade_discards_session (after a successful handshake no Mail/Rcpt/Data/Reset/Auth/SASL callback until a new session exists), C10_new_session_sees_tls; C10_failed_handshake_changes_nothing (220 and then a handshake that fails: same session, authentication, envelope, TLS still off). Implementation: failed handshakes (the peer sends something else than a ClientHello) followed by plaintext AUTH/MAIL/greeting/DATA; real in-process TLS upgrades with commands (incl. EHLO preludes) injected behind STARTTLS; client half: NewClientStartTLS over net.Pipe and package-level SendMail over loopback TCP against a live scripted server {no STARTTLS, 454/501/421/EOF, 220 + injected replies, 220 then plaintext/alert/HTTP/silence, real handshake, inner EHLO refused}, judged (nothing but EHLO/HELO/STARTTLS/QUIT in plaintext, EHLO renegotiated, nothing succeeds without TLS) and compared with the Lean client model.',
-          'DESIGN.md 0.3 + 7 C10', 'Lean 4 proof (server upgrade) + monitors + differential correspondence (conv with real TLS, cstls probes)',
+ "C10": C('Proved on the server model: C10_refused_unless_available, startTLS_success / C10_server_fresh (after a successful upgrade: no session, greeting name, authentication or envelope; the old session logged out; a fresh wire), C10_no_plaintext_in_tls (octets buffered behind STARTTLS are never read inside TLS); whole connections: C10_upgrade_discards_session (after a successful handshake no Mail/Rcpt/Data/Reset/Auth/SASL callback until a new session exists), C10_new_session_sees_tls; C10_failed_handshake_changes_nothing (220 and then a handshake that fails: same session, authentication, envelope, TLS still off); on the client model: C10_client_plain_frozen (after a 220 to STARTTLS no call sequence and no peer behaviour gets another octet onto the raw socket), C10_client_plaintext_only_upgrade (everything SendMail writes in plaintext is whole EHLO/LHLO, HELO and STARTTLS lines), C10_client_stops_when_upgrade_fails. Implementation: failed handshakes (the peer sends something else than a ClientHello) followed by plaintext AUTH/MAIL/greeting/DATA; real in-process TLS upgrades with commands (incl. EHLO preludes) injected behind STARTTLS; client half: NewClientStartTLS over net.Pipe and package-level SendMail over loopback TCP against a live scripted server {no STARTTLS, 454/501/421/EOF, 220 + injected replies, 220 then plaintext/alert/HTTP/silence, real handshake, inner EHLO refused}, judged (nothing but EHLO/HELO/STARTTLS/QUIT in plaintext, EHLO renegotiated, nothing succeeds without TLS) and compared with the Lean client model.',
+          'DESIGN.md 0.3 + 7 C10', 'Lean 4 proof (server upgrade, client upgrade) + monitors + differential correspondence (conv with real TLS, cstls probes)',
           'crypto/tls is real in the probes and abstracted in the model (handshake succeeds iff the peer speaks TLS; the session is a fresh stream)'),
  "C11": C("Proved on the parser model: C11_exact_mailbox (for every `<local@domain>` with a non-empty dot-string local part and a non-empty "
           "domain not ending in '@' - the class every real client sends - the parser returns exactly that mailbox and leaves exactly what follows "
